@@ -132,12 +132,15 @@ func (m *Machine) summarizable(fn *ssa.Function) bool {
 	if res.Len() == 0 {
 		return false
 	}
+	// scalar results only: a string result almost always differs in length between the local
+	// paths (percent-encoding, error descriptions), the merge then fails and the attempt is wasted
+	// on every call
 	hasScalar := false
 	for i := 0; i < res.Len(); i++ {
 		t := res.At(i).Type()
 		if scalarResult(t) {
 			hasScalar = true
-		} else if !isString(t) {
+		} else {
 			return false
 		}
 	}
@@ -258,6 +261,11 @@ func (m *Machine) trySummary(fn *ssa.Function, args []Value, env []Value, caller
 	val, reads, ok := m.summarize(fn, args, env, caller)
 	if !ok {
 		m.stats.summaryFail++
+		if debugUnsat {
+			debugMu.Lock()
+			debugCount["SUMFAIL "+fn.String()]++
+			debugMu.Unlock()
+		}
 		if cacheable {
 			store(&sumEntry{bad: true, reads: reads})
 		}
@@ -319,7 +327,18 @@ func (m *Machine) summarize(fn *ssa.Function, args []Value, env []Value, caller 
 			results = append(results, localResult{g, v})
 		case 1: // go panic on this local path: only fine if the path is infeasible on its own
 			lits := append([]*Term(nil), ctx.guard...)
-			res, _ := m.solverCF.Check(lits, false, 0)
+			// the verdict depends on the guard literals only (hash-consed, persistent): memoise it
+			var kb strings.Builder
+			for _, l := range lits {
+				fmt.Fprintf(&kb, "%d,", l.id)
+			}
+			res, seen := m.cfCache[kb.String()]
+			if !seen {
+				res, _ = m.solverCF.Check(lits, false, 0)
+				if res != Unknown {
+					m.cfCache[kb.String()] = res
+				}
+			}
 			if res != Unsat {
 				return nil, nil, false
 			}
